@@ -170,6 +170,11 @@ def run(run):
                 'specification computes, leave the original unchanged, and evaluate every focused cell / name to the fresh value in both '
                 'models, also after each input of the closure is set to another value in both')
     run.exhaustive = True
+    # code -> spec: random multi-sheet workbooks under random histories, every evaluation judged by TLC (Trace_Local)
+    from checks import wbdrive
+    v = wbdrive.run_driver(run, 1200 if run.tier == 'quick' else 20000, mix='c13')
+    if v.get('ok', 0) < 2000:
+        raise xl.MachineryError(f'random workbook driver is vacuous: {dict(v)}')
 
 
 def replay(path):
